@@ -21,7 +21,7 @@ KINDS6 = [U(3), U(8), I(5), F32, STR, enum_with_max(2), OOO]
 KINDS5 = [U(3), I(13), enum_with_max(5), Dyn(U(8)), F64]
 # a fixed ascending injection: sparse, above 255 and 65535, and already the first two (three) ids come in
 # another order when truncated to 8 (16) bits: 258, 513, 65537 -> 2, 1, 1 (mod 256) and 258, 513, 1 (mod 65536)
-IDS = (258, 513, 65537, 4000000014)
+IDS = (258, 513, 65537, 4000000014, 4000000015)
 
 
 def bases(tier):
@@ -33,6 +33,11 @@ def bases(tier):
     if tier != "quick":
         for c in itertools.product(KINDS5, repeat=4):
             out.append(c)
+    else:
+        # four and five fields (every permutation of them): orders in which the first and the last field stay in place
+        out.append((U(3), I(13), U(8), I(5)))
+        out.append((U(8), U(8), U(8), U(8)))
+        out.append((U(1), I(7), U(12), enum_with_max(5), U(4)))
     # permutations hidden inside a nested struct
     inners = [(U(3), I(6)), (U(3), I(6), U(8)), (U(8), U(8), U(8)), (I(5), F32, enum_with_max(5))]
     if tier != "quick":
